@@ -66,6 +66,15 @@ def kind_of(exc):
     return "other:" + type(exc).__name__
 
 
+class NoneExist:
+    """A fresh project: no file exists yet (an input nobody provides is then unresolved)."""
+    def exists(self, path):
+        return False
+
+    def changed_at(self, path):
+        raise FileNotFoundError(path)
+
+
 class AllExist:
     def exists(self, path):
         return True
@@ -87,6 +96,7 @@ def drive_graph(item):
            "has_info": False, "info_deps": {}, "info_dependents": {}}
     targets = []
     root = real_root()
+    fsmode = "none" if variant % 3 == 2 else "all"
     for d in decls:
         ins = [spell(p, root) for p in d["ins"]]
         outs = [spell(p, root) for p in d["outs"]]
@@ -104,7 +114,7 @@ def drive_graph(item):
     old_cwd = os.getcwd()
     os.chdir(os.path.join(root, "P"))
     try:
-        g = Graph.from_targets({t.name: t for t in targets}, AllExist())
+        g = Graph.from_targets({t.name: t for t in targets}, NoneExist() if fsmode == "none" else AllExist())
         obs["built"] = True
         obs["endpoints"] = sorted(inv[t.name] for t in g.endpoints())
         for t in g:
@@ -119,7 +129,22 @@ def drive_graph(item):
         obs["kind"] = kind_of(exc)
     finally:
         os.chdir(old_cwd)
-    if obs["built"] and variant % 9 == 0:
+    def realisable():
+        # one path may not be both a file and a directory of another one on a real disk
+        norm = set()
+        for d in decls:
+            for q in d["ins"] + d["outs"]:
+                comps = [c for c in (([] if q["abs"] else list(d["wd"]["comps"]) if d["wd"]["abs"] else ["P"] + list(d["wd"]["comps"])) + list(q["comps"])) if c not in ("", ".")]
+                st = []
+                for c in comps:
+                    if c == "..":
+                        st = st[:-1]
+                    else:
+                        st.append(c)
+                norm.add(tuple(st))
+        return not any(a != b and b[:len(a)] == a for a in norm for b in norm)
+
+    if obs["built"] and variant % 9 == 0 and fsmode == "all" and realisable():
         # the same relations through `gwf info` on a real project: the sandbox project directory stands
         # for "/", gwf is invoked from <proj>/P (so that relative working directories resolve as in the
         # specification) and finds <proj>/workflow.py by searching upwards
@@ -149,7 +174,7 @@ def drive_graph(item):
         except Exception:  # noqa: BLE001
             obs["info_deps"] = {d["name"]: ["?exit %s" % r.exit_code] for d in decls}
             obs["info_dependents"] = {d["name"]: [] for d in decls}
-    return {"id": rid, "scn": dict(scn, variant=variant), "obs": obs}
+    return {"id": rid, "scn": dict(scn, variant=variant, fsmode=fsmode), "obs": obs}
 
 
 # --------------------------------------------------------------------------
@@ -229,7 +254,7 @@ def drive_map(item):
     elif mode == "func":
         kw["name"] = lambda idx, t: "custom%d" % idx
     try:
-        res = wf.map(func, items, **kw)
+        res = wf.map(func, [items, iter(items), (x for x in items)][variant % 3], **kw)
         names = [t.name for t in res]
         ok_reg = set(names) == set(wf.targets) and len(names) == len(set(names))
     except Exception as exc:  # noqa: BLE001
@@ -265,8 +290,11 @@ def drive_defseq(item):
             elif op["op"] == "template":
                 res = [wf.target_from_template(names[0], AnonymousTarget(inputs=[], outputs=["o%d" % k], options={}))]
             else:
+                items = ["i%d" % j for j in range(len(names))]
+                # the items may come as any iterable: a list, a one-shot iterator, a generator
+                items = [items, iter(items), (x for x in items)][(variant + k) % 3]
                 res = list(wf.map(lambda x: AnonymousTarget(inputs=[], outputs=["o%d_%s" % (k, x)], options={}),
-                                  ["i%d" % j for j in range(len(names))], name=lambda idx, t: names[idx]))
+                                  items, name=lambda idx, t: names[idx]))
             acc.append(True)
             results.append([inv.get(t.name, "?" + t.name) for t in res])
         except WorkflowError:
